@@ -268,7 +268,11 @@ Error RACFGBuilder::on_instruction(InstNode* inst, InstControlFlow& control_type
               }
             }
 
-            ASMJIT_PROPAGATE(ib.add(work_reg, flags, use_regs, use_id, use_rewrite_mask, out_regs, out_id, out_rewrite_mask, op_rw_info.rm_size(), consecutive_parent));
+            // Only a register that follows its parent in a register list has a consecutive parent (not an operand
+            // that follows the register list, like the index vector of TBL/TBX).
+            RAWorkReg* parent_reg = op_rw_info.has_op_flag(OpRWFlags::kConsecutive) ? consecutive_parent : nullptr;
+
+            ASMJIT_PROPAGATE(ib.add(work_reg, flags, use_regs, use_id, use_rewrite_mask, out_regs, out_id, out_rewrite_mask, op_rw_info.rm_size(), parent_reg));
             if (single_reg_ops == i) {
               single_reg_ops++;
             }
